@@ -55,7 +55,7 @@ def ignored_of(case):
     return set(IGNORED) | (set(SUB_IGNORED) if case["tree"].get("sub") else set())
 # (single, multi, terminator, uncommentable) by extension — written down from the documentation
 STYLES = {".c": (0, 1, "*/", 0), ".cpp": (1, 1, "*/", 0), ".py": (1, 0, "", 0), ".html": (0, 1, "-->", 0), ".csv": (0, 0, "", 1),
-          ".png": (0, 0, "", 1), ".license": (0, 0, "", 0), ".gitignore": (1, 0, "", 0)}
+          ".png": (0, 0, "", 1), ".license": (0, 0, "", 0), ".gitignore": (1, 0, "", 0), ".toml": (1, 0, "", 0)}
 FETCHABLE = ["MIT", "GPL-3.0-or-later", "0BSD"]
 READ_ONLY = {"lint": ["lint"], "lint-json": ["lint", "--json"], "lint-lines": ["lint", "--lines"], "spdx": ["spdx"],
              "supported-licenses": ["supported-licenses"], "help": ["--help"], "version": ["--version"]}
